@@ -8,6 +8,7 @@ mod stateops;
 mod measure;
 mod circuit;
 mod param;
+mod export;
 mod util;
 
 use serde_json::{json, Value};
@@ -26,6 +27,7 @@ fn dispatch(case: &Value) -> Value {
         "measure" => measure::run_measure(case),
         "circuit" => circuit::run_circuit(case),
         "param" => param::run_param(case),
+        "export" => export::run_export(case),
         "sched" => sched(case),
         other => json!({"r": "harness_error", "e": format!("unknown op {}", other)}),
     }
